@@ -92,7 +92,7 @@ class Canon:
         self.stats = {"inlined_calls": 0, "assign_forms": 0, "iterator_loops": 0}
 
     # ------------------------------------------------------------------ P1
-    def inlinable(self, path):
+    def inlinable(self, path, allow_ret=False):
         f = self.fns.get(path)
         if f is None or f.get("kind") not in ("Fn", "AssocFn"):
             return None
@@ -106,10 +106,14 @@ class Canon:
         if not isinstance(body, dict) or body.get("k") != "Block":
             return None
         for n in _walk(body):
-            if n.get("k") in ("Ret", "Try"):
+            if n.get("k") == "Try" or (n.get("k") == "Ret" and not allow_ret):
+                return None
+            if n.get("k") == "Ret" and any(True for _ in ()):
                 return None
             if _callee(n) == path:
                 return None
+        if allow_ret and any(n.get("k") == "Closure" and any(x.get("k") == "Ret" for x in _walk(n)) for n in _walk(body)):
+            return None
         return f
 
     def run_fn(self, f, stack=()):
@@ -144,10 +148,12 @@ class Canon:
             self.assign_forms(body)
             self.match_ints(body)
             self.if_assign(body)
+            self.mem_replace(body)
             self.while_loops(body)
             self.fold_loops(body)
             self.collect_loops(body)
             self.iter_loops(body)
+            self.for_tuple_patterns(body)
             self.assign_forms(body)
         self.done.add(p)
 
@@ -312,6 +318,45 @@ class Canon:
                     if not any(str(t).startswith("&mut") for t in f.get("inputs", [])):
                         out.append(x)
                         continue
+                    # a helper that writes through a `&mut` argument may still be evaluated first when everything else the
+                    # statement evaluates is side-effect free and does not read what the helper writes
+                    roots = set()
+                    for a in _args(x):
+                        a0 = a
+                        while a0.get("k") in ("AddrOf", "Field", "Index") or (a0.get("k") == "Unary" and a0.get("op") == "*"):
+                            a0 = a0["e"] if a0.get("k") != "Index" else a0["base"]
+                        if a.get("k") == "AddrOf" and a.get("mut") and a0.get("k") == "Local":
+                            roots.add(a0["v"])
+                        elif str(a.get("ty", "")).startswith("&mut") and a0.get("k") == "Local":
+                            roots.add(a0["v"])
+                    others = []
+                    st2 = [e]
+                    while st2:
+                        y = st2.pop()
+                        if y is x:
+                            continue
+                        if not any(z is x for z in _walk(y)):
+                            others.append(y)
+                            continue
+                        st2.extend(_kids(y))
+                    def reads_root(n_):
+                        return any(z.get("k") == "Local" and z.get("v") in roots for z in _walk(n_))
+                    skeleton_ok = all(self._pure(o) and not reads_root(o) for o in others if o.get("k") not in ("Def",))
+                    # the nodes on the path from the statement to the call may only be calls / method calls / assignments
+                    path_ok = True
+                    cur = [e]
+                    while cur:
+                        y = cur.pop()
+                        if y is x:
+                            break
+                        nxt = [c_ for c_ in _kids(y) if c_ is x or any(z is x for z in _walk(c_))]
+                        if y.get("k") not in ("Call", "MethodCall", "Assign", "Block", "AddrOf", "Cast", "Semi", "Expr") or len(nxt) != 1:
+                            path_ok = False
+                            break
+                        cur = nxt
+                    if roots and skeleton_ok and path_ok:
+                        out.append(x)
+                        continue
             for ch in reversed(list(_kids(x))):
                 stack.append((ch, False))
         return out
@@ -422,6 +467,13 @@ class Canon:
         tail = blk.get("expr")
         if tail is not None:
             call, f = self._target(tail)
+            if f is None and blk is owner.get("body"):
+                # the value of the whole function: a `return` inside the helper returns that very value
+                e0 = _strip(tail)
+                c0 = _callee(e0)
+                f0 = self.inlinable(c0, allow_ret=True) if c0 else None
+                if f0 is not None:
+                    call, f = e0, f0
             if f is not None and _strip(tail) is tail:
                 inst = self._instance(f, call)
                 if inst is not None:
@@ -523,6 +575,67 @@ class Canon:
             n["r"] = rhs
             n["canon"] = "x = x op e"
             self.stats["assign_forms"] += 1
+
+    # ------------------------------------------------------------------ P13
+    def mem_replace(self, body):
+        """`let old = mem::replace(place, v);`  ->  `let old = *place; *place = v;`  (v side-effect free and not reading place)"""
+        for blk in [n for n in _walk(body) if n.get("k") == "Block"]:
+            out = []
+            ch = False
+            for st in blk.get("stmts", []):
+                e = _strip(st.get("init") or {}) if st.get("k") == "Let" else _strip(st.get("e") or {}) if st.get("k") == "Semi" else {}
+                if e.get("k") == "Call" and _callee(e) in ("std::mem::replace", "core::mem::replace") and len(e.get("args", [])) == 2 and self._pure(e["args"][1]):
+                    dest, val = e["args"]
+                    d0 = dest
+                    while d0.get("k") == "AddrOf":
+                        d0 = d0["e"]
+                    place = d0 if d0 is not dest else {"k": "Unary", "op": "*", "e": dest, "id": self._id(), "ty": val.get("ty"), "sp": list(dest.get("sp") or [0, 0, 0, 0])}
+                    if not self._pure(place):
+                        out.append(st)
+                        continue
+                    sp = st.get("sp") or [0, 0, 0, 0]
+                    if st.get("k") == "Let":
+                        st["init"] = copy.deepcopy(place)
+                        out.append(st)
+                    asg = {"k": "Assign", "l": copy.deepcopy(place), "r": val, "id": self._id(), "ty": "()", "sp": [sp[2], sp[3] + 0.001, sp[2], sp[3] + 0.002]}
+                    for x in _walk(asg["l"]):
+                        if x.get("sp"):
+                            x["sp"] = list(asg["sp"])
+                    out.append({"k": "Semi", "e": asg, "sp": list(asg["sp"])})
+                    ch = True
+                else:
+                    out.append(st)
+            if ch:
+                blk["stmts"] = out
+
+    def for_tuple_patterns(self, body):
+        """`for (a, b, c) in SRC` (SRC not an enumerate / zip chain that P3 rewrites)  ->  `for t in SRC { let a = t.0; let b = t.1; .. }`"""
+        for f in [n for n in _walk(body) if n.get("k") == "For"]:
+            pat = f.get("pat", {})
+            if pat.get("k") != "Tuple" or f.get("canon") or f["body"].get("k") != "Block":
+                continue
+            it = _strip(f["iter"])
+            names = set()
+            x = it
+            while x.get("k") == "MethodCall":
+                names.add(x.get("name"))
+                x = _strip(x["recv"])
+            if names & {"enumerate", "zip"}:
+                continue
+            if not all(q.get("k") in ("Bind", "Wild") and not q.get("byref") for q in pat.get("ps", [])):
+                continue
+            self.fresh += 1
+            tv = self.fresh
+            sp = f["body"].get("sp") or f.get("sp") or [0, 0, 0, 0]
+            lets = []
+            for i_, q in enumerate(pat["ps"]):
+                if q.get("k") != "Bind":
+                    continue
+                fld = {"k": "Field", "name": str(i_), "e": {"k": "Local", "v": tv, "name": "__t", "id": self._id(), "ty": pat.get("ty"), "sp": [sp[0], sp[1], sp[0], sp[1]]},
+                       "id": self._id(), "ty": q.get("ty"), "sp": [sp[0], sp[1], sp[0], sp[1]]}
+                lets.append({"k": "Let", "pat": q, "init": fld, "sp": [sp[0], sp[1] + 0.001 * (len(lets) + 1), sp[0], sp[1] + 0.001 * (len(lets) + 1)], "canon": "tuple-elem"})
+            f["pat"] = {"k": "Bind", "v": tv, "name": "__t", "mut": False, "byref": False, "ty": pat.get("ty")}
+            f["body"]["stmts"] = lets + list(f["body"].get("stmts", []))
 
     # ------------------------------------------------------------------ P12
     def if_assign(self, body):
@@ -1120,11 +1233,14 @@ class Canon:
                 csp = c.get("sp") or sp
                 v = st["pat"]["v"]
                 vty = st["pat"].get("ty", c.get("ty"))
+                cbody, cpre = cl["body"], []
+                if cbody.get("k") == "Block" and cbody.get("expr") is not None and not cbody.get("m"):
+                    cpre, cbody = list(cbody.get("stmts", [])), cbody["expr"]       # `|i| { let ..; value }`
                 push = {"k": "MethodCall", "name": "push", "fn": "std::vec::Vec<T, A>::push", "impl": "std::vec::Vec<T, A>::push", "fn_local": False,
-                        "recv": {"k": "Local", "v": v, "name": st["pat"].get("name"), "id": self._id(), "adj": "&mut " + str(vty), "ty": vty, "sp": list(cl["body"].get("sp") or csp)},
-                        "args": [cl["body"]], "id": self._id(), "ty": "()", "sp": list(cl["body"].get("sp") or csp)}
+                        "recv": {"k": "Local", "v": v, "name": st["pat"].get("name"), "id": self._id(), "adj": "&mut " + str(vty), "ty": vty, "sp": list(cbody.get("sp") or csp)},
+                        "args": [cbody], "id": self._id(), "ty": "()", "sp": list(cbody.get("sp") or csp)}
                 loop = {"k": "For", "pat": cl["params"][0], "iter": src,
-                        "body": {"k": "Block", "stmts": [{"k": "Semi", "e": push, "sp": list(push["sp"])}], "id": self._id(), "ty": "()", "sp": list(cl.get("sp") or csp)},
+                        "body": {"k": "Block", "stmts": cpre + [{"k": "Semi", "e": push, "sp": list(push["sp"])}], "id": self._id(), "ty": "()", "sp": list(cl.get("sp") or csp)},
                         "id": self._id(), "ty": "()", "sp": [csp[0], csp[1] + 0.0005, csp[2], csp[3]], "canon": "collect-loop"}
                 # is the source a plain range, or something P3 can turn into an index loop?  (otherwise leave the statement alone)
                 if _strip(src).get("k") == "Range" and cl["params"][0].get("k") == "Bind":
